@@ -1,6 +1,8 @@
 import EdpVerif.Drv.Etf
 import EdpVerif.Impl.Serde
 import EdpVerif.Spec.Serde
+import EdpVerif.Impl.SerdeAny
+import EdpVerif.Spec.SerdeShape
 /-!
 Driver requests of property C15 and the text form of `Ty` / `Val` shared with harness/src/c15.rs.
 
@@ -276,6 +278,11 @@ def handleC15 : List String → Option String
     let v ← getVal v
     pure ("ok " ++ (ser v).text)
   -- `from_term::<ty>`
+  | ["c15any", t] => some <| run do
+      let t ← getTerm t
+      match Serde.content t with
+      | .ok c => pure ("ok " ++ c.text)
+      | .error _ => pure "err"
   | ["c15de", ty, t] => some <| run do
     let ty ← getTy ty
     let t ← getTerm t
@@ -337,6 +344,14 @@ def handleC15 : List String → Option String
       if res == expected then pure "ok" else pure ("FAIL integer read: the term denotes " ++
         (match Spec.Serde.intVal t with | some i => toString i | none => "no integer") ++ ", from_term gave " ++ res)
     | _ => throw "bad-int-ty"
+  -- the error clause on the implementation's output: a term without one of the shapes the type is written as must be `err`
+  | ["c15shape", ty, t, res] => some <| run do
+    let ty ← getTy ty
+    let t ← getTerm t
+    if !SerdeShape.shapeOk ty t && res != "err" && res != "panic" then
+      pure ("FAIL a value made up from a term of the wrong shape: " ++ res)
+    else if res == "panic" then pure "FAIL panic"
+    else pure "ok"
   | _ => none
 
 end Edp.Drv
